@@ -1,5 +1,6 @@
 import EdpVerif.Drv.Etf
 import EdpVerif.Impl.Send
+import EdpVerif.Impl.SendConn
 import EdpVerif.Spec.Wire
 /-! Driver requests of property C07 (send side).
 
@@ -13,6 +14,12 @@ Operation text (no spaces): fields separated by `;`
                                           `order` the header's atom order (`-` none, `*` first-occurrence order, else `x<hex>,..`)
 * `c07read mode wire op`               — oracle: the independent reader reads `wire` as exactly the frame the protocol assigns to `op`
 * `c07none wire`                       — oracle: nothing was written
+* `c07fail neg fates ops`              — tie: a sequence of operations on ONE connection (`runOps`), `fates` = `w` (all writes
+                                          complete) or `c<j>.<k>` (stopped after `j` complete writes and `k` bytes of the next) per operation:
+                                          the outcome of every operation (`ok`, `cut`, `err:<class>`) and the exact bytes
+* `c07cutwire mode results wire ops`   — oracle: `wire` is the whole frames of the operations whose result is `ok`, in order, then
+                                          at most the beginning of ONE unfinished frame, and no operation after a `cut` succeeds
+* `c07node table fate op`              — tie: a node-level operation (`nodeOp`); `table` = `-` (no connection) or the flags
 * `c07trace neg prog trace wire`       — tie under concurrency: the recorded hook trace (`<task>.<l|m|c|e>` joined by `,`) is a run of
                                           the lock/write model and produces exactly `wire`
 * `c07wire prog wire`                  — oracle under concurrency: `wire` is whole frames, each task's operations in issue order,
@@ -197,10 +204,85 @@ def attributeItems (exp : List (List (SOp × Bool))) (items : List Item) : Excep
   if exp.any (fun l => !l.isEmpty) then throw "FAIL operations-missing-from-the-wire"
   pure ids
 
+def getFate (s : String) : Except String Fate :=
+  if s == "w" then .ok .whole else
+  match s.toList with
+  | 'c' :: r =>
+    match (String.ofList r).splitOn "." with
+    | [j, k] =>
+      match j.toNat?, k.toNat? with
+      | some j, some k => .ok (.cut j k)
+      | _, _ => .error "bad-fate"
+    | _ => .error "bad-fate"
+  | _ => .error "bad-fate"
+
+def outcomeText : Outcome → String
+  | .ok => "ok"
+  | .cut => "cut"
+  | .err e => errText e
+
+/-- the node-level form of an operation text: what the node draws from its counters is what the text carries -/
+def toNodeOp : Op → NodeOp × Drawn
+  | .send f t m => (.send t m, { pid := f, counter := 0, ref := { node := [], creation := 0, ids := [] } })
+  | .regSend f _ m => (.send f m, { pid := f, counter := 0, ref := { node := [], creation := 0, ids := [] } })
+  | .link f t => (.link f t, { pid := f, counter := 0, ref := { node := [], creation := 0, ids := [] } })
+  | .unlink f t i => (.unlink f t, { pid := f, counter := i - 1, ref := { node := [], creation := 0, ids := [] } })
+  | .monitor f t r => (.monitor f t, { pid := f, counter := 0, ref := r })
+  | .demonitor f t r => (.demonitor f t r, { pid := f, counter := 0, ref := { node := [], creation := 0, ids := [] } })
+
 end C07
 
 open C07 Edp.Send Edp.Spec.Wire in
 def handleC07 : List String → Option String
+  | ["c07fail", neg, fates, ops] => some <| run do
+    let neg ← if neg == "-" then pure none else (some <$> getNat neg)
+    let ops ← (ops.splitOn "/").mapM getOp
+    let fates ← (fates.splitOn ",").mapM getFate
+    if ops.length != fates.length then throw "bad-request"
+    let conn : Conn := { state := .connected, neg := neg, stream := true }
+    let calls : List Call := (ops.zip fates).map fun ((op, _), f) =>
+      { order := (collectAtomsL (opTerms op)).eraseDups, op := op, fate := f }
+    let r := runOps conn calls
+    pure (",".intercalate (r.2.map outcomeText) ++ " wire=" ++ (if r.1.isEmpty then "-" else hexOf r.1))
+  | ["c07cutwire", mode, results, wire, ops] => some <| run do
+    let mode ← getMode mode
+    let wire ← getHexArg wire
+    -- `-`: the text of an operation that did not return Ok is not needed (and may be megabytes long)
+    let results := results.splitOn ","
+    let optexts := ops.splitOn "/"
+    if optexts.length != results.length then throw "bad-request"
+    let ops ← (optexts.zip results).mapM fun (t, r) =>
+      if t == "-" then (if r == "ok" then throw "bad-request" else pure (Op.link default default, false)) else getOp t
+    let (frames, left) := splitStream wire.length wire
+    -- what is left over is the beginning of ONE frame: its announced length is not there yet
+    let leftOk := match rdN 4 left with
+      | none => left.length < 4
+      | some (len, r) => r.length < len
+    let cutIdx := results.findIdx? (· == "cut")
+    let expected := (ops.zip results).filterMap fun ((op, _), r) => if r == "ok" then some (itemFor op.den) else none
+    match readBodies mode [] frames with
+    | none => pure "FAIL complete-frames-not-well-formed"
+    | some items =>
+      if !leftOk then pure "FAIL bytes-follow-an-unfinished-frame"
+      else if cutIdx.isNone && !left.isEmpty then pure "FAIL unfinished-frame-although-no-operation-was-cut"
+      else if (match cutIdx with | some i => (results.drop (i + 1)).any (· == "ok") | none => false) then
+        pure "FAIL an-operation-succeeds-after-a-partial-frame"
+      else if items.length != expected.length then
+        pure s!"FAIL {items.length} whole frames, {expected.length} operations returned ok"
+      else if (items.zip expected).all (fun (a, b) => Item.same a b) then pure "ok"
+      else pure "FAIL a-frame-is-not-the-item-of-its-operation"
+  | ["c07node", table, fate, op] => some <| run do
+    let table ← if table == "-" then pure none else do
+      let n ← getNat table
+      pure (some ({ state := .connected, neg := some n, stream := true } : Conn))
+    let fate ← getFate fate
+    let (op, _) ← getOp op
+    let (nop, d) := toNodeOp op
+    let r := nodeOp table [] d nop fate
+    let o := match r.2.2 with
+      | .notConnected => "err:notconnected"
+      | .conn o => outcomeText o
+    pure (o ++ " wire=" ++ (if r.2.1.isEmpty then "-" else hexOf r.2.1))
   | ["c07send", state, neg, stream, order, op] => some <| run do
     let state ← getState state
     let neg ← if neg == "-" then pure none else (some <$> getNat neg)
